@@ -469,6 +469,82 @@ func ruleWalkTotal(p *Prog, r *Report, specs []walkerSpec) {
 				listWhy = why
 			}
 		}
+		// an arm may live in an unexported helper that is handed the asserted map / list and calls the walker back for every
+		// member (walker split into a dispatcher and its arms)
+		armInHelper := func(wantMap bool) string {
+			found := ""
+			eachInstr(fn, func(b *ssa.BasicBlock, in ssa.Instruction) {
+				c, ok := in.(*ssa.Call)
+				if !ok || found != "" {
+					return
+				}
+				h := staticCallee(&c.Call)
+				if h == nil || h == fn || !p.InModule(h) || p.Exported(h) || len(h.Blocks) == 0 {
+					return
+				}
+				for ai, a := range c.Call.Args {
+					if ai >= len(h.Params) || !assertOf(a, node) || isMapShaped(a.Type()) != wantMap {
+						continue
+					}
+					prm := h.Params[ai]
+					arms := map[*ssa.BasicBlock]*arm{}
+					eachInstr(h, func(b2 *ssa.BasicBlock, i2 ssa.Instruction) {
+						c2, ok := i2.(*ssa.Call)
+						if !ok || staticCallee(&c2.Call) != fn || nodeIdx >= len(c2.Call.Args) {
+							return
+						}
+						arg := c2.Call.Args[nodeIdx]
+						if wantMap {
+							if ex, ok := arg.(*ssa.Extract); ok && ex.Index == 2 {
+								if nx, ok := ex.Tuple.(*ssa.Next); ok {
+									if rg, ok := nx.Iter.(*ssa.Range); ok && rg.X == ssa.Value(prm) {
+										if arms[nx.Block()] == nil {
+											arms[nx.Block()] = &arm{hdr: nx.Block()}
+										}
+										arms[nx.Block()].calls = append(arms[nx.Block()].calls, c2)
+									}
+								}
+							}
+						} else if u, ok := arg.(*ssa.UnOp); ok && u.Op == token.MUL {
+							if ia, ok := u.X.(*ssa.IndexAddr); ok && ia.X == ssa.Value(prm) && isRangeIndex(ia.Index) {
+								hdr := ia.Index.(*ssa.BinOp).X.(*ssa.Phi).Block()
+								if arms[hdr] == nil {
+									arms[hdr] = &arm{hdr: hdr}
+								}
+								arms[hdr].calls = append(arms[hdr].calls, c2)
+							}
+						}
+					})
+					for _, a2 := range arms {
+						if why := p.callsCoverBody(h, a2.calls, a2.hdr, sp.SkipVars); why == "" {
+							// the loop is reached on every path through the helper
+							reach := true
+							for _, hb := range h.Blocks {
+								if _, isRet := hb.Instrs[len(hb.Instrs)-1].(*ssa.Return); isRet {
+									if !(a2.hdr == hb || a2.hdr.Dominates(hb)) {
+										reach = false
+									}
+								}
+							}
+							if reach {
+								found = p.Pos(a2.calls[0].Pos())
+							}
+						}
+					}
+				}
+			})
+			return found
+		}
+		if len(mapArms) == 0 {
+			if at := armInHelper(true); at != "" {
+				mapOK = at
+			}
+		}
+		if len(listArms) == 0 {
+			if at := armInHelper(false); at != "" {
+				listOK = at
+			}
+		}
 		// the loops themselves are reached whenever the node has the arm's type
 		for _, a := range mapArms {
 			if why := p.armReachesLoop(fn, node, a.hdr, true, sp.SkipVars); why != "" && mapWhy == "" {
